@@ -12,7 +12,7 @@ import prelude as P
 NAME = 'enum_certs'
 BACKEND = 'enum'
 CR = 'crates/anemo/src/crypto.rs'
-COVER = {'server_cert_verifier': [0, 1], 'client_cert_verifier': [0, 1]}
+COVER = {'server_cert_verifier': [0, 1], 'client_cert_verifier': [0, 1], 'pinned_server_cert_verifier': [0, 1]}
 
 PRELUDE = r'''// GENERATED on every run by /verif/vc from /repo's working tree -- do not edit
 #![allow(dead_code, unused, non_upper_case_globals, non_camel_case_types)]
@@ -101,6 +101,10 @@ pub mod webpki {
 }
 pub static mut VERIFY_CALLS: u32 = 0;
 pub static mut NAME_CHECKS: u32 = 0;
+// stand-in for x509 + pkcs8 parsing (unit crypto): the certificate's subject key, or an error for a malformed certificate
+pub fn peer_id_from_certificate(certificate: &CertificateDer) -> Result<PeerId, rustls::Error> {
+    if certificate.well_formed { Ok(PeerId([certificate.key; 32])) } else { Err(rustls::Error::InvalidCertificate(rustls::CertificateError::BadEncoding)) }
+}
 pub trait ServerCertVerifier { fn verify_server_cert(&self, end_entity: &CertificateDer<'_>, intermediates: &[CertificateDer<'_>], server_name: &ServerName, ocsp_response: &[u8], now: UnixTime) -> Result<ServerCertVerified, rustls::Error>; }
 pub trait ClientCertVerifier { fn verify_client_cert(&self, end_entity: &CertificateDer, intermediates: &[CertificateDer], now: UnixTime) -> Result<ClientCertVerified, rustls::Error>; }
 '''
@@ -140,13 +144,14 @@ pub fn main() {
     if args.len() == 4 && args[1] == "--replay" {
         let choices: Vec<(u32, u32)> = args[3].split(',').filter(|s| !s.is_empty()).map(|s| (s.trim().parse().unwrap(), u32::MAX)).collect();
         let mut ch = Chooser { path: choices, pos: 0 };
-        match args[2].as_str() { "client_cert_verifier" => harness::client_cert_verifier(&mut ch), _ => harness::server_cert_verifier(&mut ch) }
+        match args[2].as_str() { "client_cert_verifier" => harness::client_cert_verifier(&mut ch), "pinned_server_cert_verifier" => harness::pinned_server_cert_verifier(&mut ch), _ => harness::server_cert_verifier(&mut ch) }
         println!("no assertion failed for this choice sequence");
         return;
     }
     std::panic::set_hook(Box::new(|_| {}));
     run_all("server_cert_verifier", harness::server_cert_verifier);
     run_all("client_cert_verifier", harness::client_cert_verifier);
+    run_all("pinned_server_cert_verifier", harness::pinned_server_cert_verifier);
 }
 pub mod harness {
     use super::*;
@@ -176,6 +181,21 @@ pub mod harness {
         let r = v.verify_server_cert(&cert, &extra, &server_name, &[], UnixTime);
         assert!(r.is_ok() == want, "verify_server_cert accepted a certificate the statement refuses, or refused one it accepts");
     }
+    pub fn pinned_server_cert_verifier(ch: &mut Chooser) { // @EOBL [C14,C03,C01] @BOUNDED ExpectedCertVerifier::verify_server_cert (what a dial naming an identity runs on the listener's certificate) over the same certificate model, verifier configured for [net] or [net, alt], expected identity key 1, requested name net / alt / other / an IP address: accepted iff the certificate's own key IS the expected identity AND everything the unpinned verifier demands holds too (well-formed, valid, self-signed Ed25519, server authentication permitted, requested name configured, certificate valid for that name)
+        let v = ExpectedCertVerifier(CertVerifier { server_names: names_of(ch) }, PeerId([1; 32]));
+        let cert = any_cert(ch);
+        let extra = if ch.any_bool() { let k = cert.signed_by; vec![CertificateDer { key: k, signed_by: k, alg: AlgId::Ed25519, well_formed: true, validity: 0, eku: 0, names: 7, p: PhantomData }] } else { Vec::new() };
+        let req = ch.below(4);
+        let server_name = match req { 0 => ServerName::DnsName(DnsName("net")), 1 => ServerName::DnsName(DnsName("alt")), 2 => ServerName::DnsName(DnsName("other")), _ => ServerName::IpAddress(1) };
+        let want = match req {
+            3 => false,
+            _ => { let n = NAMES[req as usize]; cert.key == 1 && acceptable(&cert, 1) && v.0.server_names.iter().any(|s| s == n) && valid_for(&cert, n) }
+        };
+        if want { cover(0); }
+        if cert.key == 1 && acceptable(&cert, 1) && !want { cover(1); }      // the right key, refused only because of a name
+        let r = v.verify_server_cert(&cert, &extra, &server_name, &[], UnixTime);
+        assert!(r.is_ok() == want, "the pinning verifier accepted a certificate the statement refuses, or refused one it accepts");
+    }
     pub fn client_cert_verifier(ch: &mut Chooser) { // @EOBL [C14,C01] @BOUNDED CertVerifier::verify_client_cert (what a listener runs on a dialer's certificate) over the same certificate model, with and without an extra certificate in the chain, listener configured for [net] or [net, alt]: accepted iff the certificate is a well-formed, currently valid, SELF-signed Ed25519 certificate permitting client authentication that is valid for at least one of the names the listener accepts; never a panic
         let v = CertVerifier { server_names: names_of(ch) };
         let cert = any_cert(ch);
@@ -194,6 +214,7 @@ def build(ctx):
     C = ctx
     C.helper_rewrites = [dict(rule='X5', pattern='anyhow::Error', repl='Error'), dict(rule='X5', pattern=r"\bCertificateDer<'\w+>", repl='CertificateDer', regex=True)] if False else [dict(rule='X5', pattern='anyhow::Error', repl='Error')]
     t = PRELUDE
+    t += P.peer_types(C).replace('#[derive(Copy, Clone, Hash, PartialEq, Eq, PartialOrd, Ord)]\npub struct PeerId', '#[derive(Copy, Clone, Hash, PartialEq, Eq, PartialOrd, Ord, Debug)]\npub struct PeerId')
     t += C.item(CR, 'static SUPPORTED_SIG_ALGS')
     t += C.item(CR, 'struct CertVerifier', derives=False)
     t += C.item(CR, 'type CertChainAndRoots')
@@ -203,6 +224,10 @@ def build(ctx):
     t += C.fn(CR, 'impl ClientCertVerifier for CertVerifier :: fn verify_client_cert', 'CertVerifier::verify_client_cert', ['C14', 'C01'], probe=False, pub=False)
     t += '}\nimpl ServerCertVerifier for CertVerifier {\n'
     t += C.fn(CR, 'impl ServerCertVerifier for CertVerifier :: fn verify_server_cert', 'CertVerifier::verify_server_cert', ['C14', 'C01'], probe=False, pub=False)
+    t += '}\n'
+    t += C.item(CR, 'struct ExpectedCertVerifier', derives=False)
+    t += 'impl ServerCertVerifier for ExpectedCertVerifier {\n'
+    t += C.fn(CR, 'impl ServerCertVerifier for ExpectedCertVerifier :: fn verify_server_cert', 'ExpectedCertVerifier::verify_server_cert', ['C14', 'C03', 'C01'], probe=False, pub=False)
     t += '}\n'
     t += C.helpers_here()
     t += HARNESS
